@@ -35,9 +35,13 @@ class Recorder:
         self.world = None          # optional, for cross-checking labels
         self.file = None           # remote mode: JSONL file
         self.hooks: Dict[str, Any] = {}
+        self.clock = None          # virtual clock (C17)
+        self.instances: Dict[str, Any] = {}
 
     def ev(self, **kw):
         kw["i"] = len(self.events)
+        if self.clock is not None:
+            kw["vt"] = self.clock()
         self.events.append(kw)
         if self.ctl is not None:
             self.ctl.boundary()
@@ -112,6 +116,8 @@ class ScriptedSim(mosaik_api_v3.Simulator):
             self._log = open(self.spec["remote"]["log"], "a", buffering=1)
             self._rng = random.Random(self.spec["remote"].get("sleep_seed", 0))
         self._rec(op="init", sid=sid, time_resolution=time_resolution, pid=os.getpid())
+        if not self.remote:
+            REC.instances[sid] = self
         return self.meta
 
     def create(self, num, model, **params):
@@ -300,11 +306,9 @@ class ScriptedSim(mosaik_api_v3.Simulator):
 
     def _async_actions(self, time, k, rng):
         acts = []
-        ag = self.beh.get("agent")
-        if not ag:
-            return acts
+        ag = self.beh.get("agent") or {}
         # ag: {"targets": [[src_full, dest_full, attr], ...], "p_set":..,"get": [[full_id, attr],..], "p_get":..}
-        if k == 0 or ag.get("every_substep"):
+        if ag and (k == 0 or ag.get("every_substep")):
             data: Dict[str, Any] = {}
             for n, (src_full, dest_full, attr) in enumerate(ag.get("targets", [])):
                 if rng.random() < ag.get("p_set", 0.6):
@@ -319,9 +323,9 @@ class ScriptedSim(mosaik_api_v3.Simulator):
             if req:
                 acts.append(("get_data", req))
         ev = self.beh.get("set_events")
-        if ev and str(time) in ev:
-            for t in ev[str(time)]:
-                acts.append(("set_event", t))
+        if ev and (str(time) in ev or "*" in ev):
+            for t in ev.get(str(time), ev.get("*", [])):
+                acts.append(("set_event", t if t >= 0 else time - t))
         return acts
 
     # ---- fault injection (C13, C14) -------------------------------------------
